@@ -75,7 +75,8 @@ struct Fixture {
             key[i] = (vp_cfg() & 256) ? vpFixString(1) : vpSymStringNonEmpty(2);
             jid[i] = vpSymStringNonEmpty(3);
             new (map->slot(i)) VpIqMap::value_type(key[i], IqState { {}, jid[i] });
-            used[i] = i < 2 ? vp_bool() : false;
+            // cfg bit 512: exactly one pending request, known to symbolic execution (re-entrancy harness)
+            used[i] = (vp_cfg() & 512) ? i == 0 : (i < 2 ? vp_bool() : false);
             map->t->s[i]->used = used[i];
             task[i].emplace(map->slot(i)->second.interface.task());
         }
